@@ -7,12 +7,14 @@
 package main
 
 import (
+	"context"
 	"encoding/json"
 	"flag"
 	"fmt"
 	"os"
 	"os/exec"
 	"path/filepath"
+	"runtime"
 	"sort"
 	"strconv"
 	"strings"
@@ -780,7 +782,15 @@ func raceCheck() []kit.V {
 	if bin == "" {
 		return nil
 	}
-	cmd := exec.Command(bin, "-racepass")
+	// it normally takes seconds: five minutes without finishing is reported
+	ctx, cancel := context.WithTimeout(context.Background(), 5*time.Minute)
+	defer cancel()
+	cmd := exec.CommandContext(ctx, bin, "-racepass")
+	// the pass must not outlive this process (which may end early); the signal is
+	// tied to the thread that starts the child, so this goroutine keeps its thread
+	runtime.LockOSThread()
+	defer runtime.UnlockOSThread()
+	cmd.SysProcAttr = &syscall.SysProcAttr{Pdeathsig: syscall.SIGKILL}
 	cmd.Env = append(os.Environ(), "GORACE=halt_on_error=1 exitcode=66")
 	out, err := cmd.CombinedOutput()
 	if err == nil {
@@ -791,11 +801,17 @@ func raceCheck() []kit.V {
 	if len(l) > 30 {
 		l = l[:30]
 	}
+	if ctx.Err() != nil {
+		return []kit.V{{Key: "free-running-hang testscript", What: "the free-running pass did not finish within 5 minutes (a run never returned):\n" + strings.Join(l, "\n"), Case: kase{Race: true}, NoConfirm: true}}
+	}
 	if strings.Contains(s, "WARNING: DATA RACE") {
 		return []kit.V{{Key: "data-race testscript", What: "race detector report in the free-running pass:\n" + strings.Join(l, "\n"), Case: kase{Race: true}, NoConfirm: true}}
 	}
 	if strings.Contains(s, "RACEPASS-ORACLE") {
 		return []kit.V{{Key: "free-running-oracle testscript", What: strings.Join(l, "\n"), Case: kase{Race: true}, NoConfirm: true}}
+	}
+	if strings.Contains(s, "panic: ") || strings.Contains(s, "fatal error: ") {
+		return []kit.V{{Key: "free-running-crash testscript", What: "the free-running pass crashed:\n" + strings.Join(l, "\n"), Case: kase{Race: true}, NoConfirm: true}}
 	}
 	kit.Harness("race pass failed: %v\n%s", err, strings.Join(l, "\n"))
 	return nil
